@@ -16,6 +16,7 @@ RULE = ("segments of every class (generic, collinear, repeated points, axis-alig
         "one side attained strictly inside (0,1); distinct by segment hash.")
 ASSUMPTIONS = ["point(t) is the reference curve (C03/C04); arcs are evaluated on the library's stored centre parameters",
                "tolerance 1e-9*size + 1e-11*|position| for Beziers; arcs 1e-7*size (2e-4*size in the exactly-fitting window, as in C04)"]
+RULE += ' Also: Segments are re-checked after translated/reversed/rotated/in-place reassignment following a first bbox(); paths after moving their end through the Path interface.'   # added after the seeded-change rounds (DESIGN.md section 10)
 CONFIGS = ['scipy']
 BUDGET = {'quick': 16000, 'thorough': 300000}
 REQUIRED = ['then:translated', 'then:reversed', 'then:rotated', 'then:reassigned', 'kind:Q', 'kind:C', 'kind:A', 'kind:L', 'class:elevated', 'arc_extremes:0', 'arc_extremes:2', 'arc_extremes:4', 'path',
